@@ -703,6 +703,7 @@ vbi3_bit_slicer_set_params	(vbi3_bit_slicer *	bs,
 	unsigned int data_bits;
 	unsigned int data_samples;
 	unsigned int cri_samples;
+	unsigned int reach;
 	unsigned int skip;
 
 	assert (NULL != bs);
@@ -1079,6 +1080,35 @@ vbi3_bit_slicer_set_params	(vbi3_bit_slicer *	bs,
 			 + bs->step * .25 + 128);
 		break;
 	}
+
+	/* The payload loops have no data end check. When the CRI
+	   is found at sample n they read up to sample n + reach:
+	   the position of the last bit, plus one sample for the linear
+	   interpolation or the 1 << LP_AVG samples the low pass slicer
+	   averages (which also starts one sample later). Do not search
+	   for the CRI where this would exceed samples_per_line. */
+	reach = (unsigned int)((bs->phase_shift
+				+ bs->step * (uint64_t)(data_bits - 1)) >> 8);
+	if (low_pass_bit_slicer_Y8 == bs->func)
+		reach += 1 << LP_AVG;
+	else
+		reach += 1;
+
+	if (reach >= samples_per_line
+	    || cri_end > samples_per_line - reach)
+		cri_end = (reach >= samples_per_line) ?
+			0 : samples_per_line - reach;
+
+	if (cri_end <= sample_offset) {
+		warning (&bs->log,
+			 "%u samples_per_line too small for "
+			 "sample_offset %u and %u samples of "
+			 "FRC and payload.",
+			 samples_per_line, sample_offset, reach);
+		goto failure;
+	}
+
+	bs->cri_samples = cri_end - sample_offset;
 
 	return TRUE;
 
